@@ -97,6 +97,24 @@ func init() {
 		l.Items[i] = item
 		return None, nil
 	}, 0, "insert(index, object) -- insert object before index")
+	ListType.Dict["pop"] = MustNewMethod("pop", func(self Object, args Tuple) (Object, error) {
+		l := self.(*List)
+		var index Object = Int(-1)
+		err := UnpackTuple(args, nil, "pop", 0, 1, &index)
+		if err != nil {
+			return nil, err
+		}
+		if len(l.Items) == 0 {
+			return nil, ExceptionNewf(IndexError, "pop from empty list")
+		}
+		i, err := IndexIntCheck(index, len(l.Items))
+		if err != nil {
+			return nil, err
+		}
+		item := l.Items[i]
+		l.DelItem(i)
+		return item, nil
+	}, 0, "pop([index]) -> item -- remove and return item at index (default last)")
 }
 
 // Type of this List object
